@@ -2,7 +2,7 @@
 """Regenerates /verif/MANIFEST.json from the table below (kept next to the checks so it stays current)."""
 import json, os
 ROOT = os.path.dirname(os.path.dirname(os.path.abspath(__file__)))
-HOOK_COMMITS = ["7269fa9"]  # /repo commits that add the verif-tagged hooks
+HOOK_COMMITS = ["7269fa9", "9d4e5c3"]  # /repo commits that add the verif-tagged hooks
 # id -> (level, technique, level text, level note, design ref)
 CHECKS = {
  "C02": ("exploration", "per-call byte-accounting monitor (P ++ X ++ S == consumed input, X == the dump's span) under the resume protocol + metamorphic CLI oracle pp(stream) == stream with pp(dump) substituted",
